@@ -118,7 +118,11 @@ pub fn json_to_exp(v: &Value) -> Exp {
             .collect::<Vec<_>>()
     };
     match op {
-        "num" => Exp::Number(v["n"].as_i64().unwrap() as f64 / v["d"].as_i64().unwrap() as f64),
+        "num" => match v.get("f") {
+            // magnitudes beyond small rationals are given as floats (rendering checks)
+            Some(f) => Exp::Number(f.as_f64().unwrap()),
+            None => Exp::Number(v["n"].as_i64().unwrap() as f64 / v["d"].as_i64().unwrap() as f64),
+        },
         "var" => Exp::Variable(v["name"].as_str().unwrap().to_string()),
         "abs" => Exp::Abs(a()),
         "not" => Exp::Not(a()),
